@@ -9,7 +9,9 @@
    for a sub-transaction.  A carrier holds more than the signed content - a redundant "hash" member, gasUsed, unknown
    members, member order, white space - and whoever builds the box (or the block) writes those as he likes.
    Transactions: t, t2 (= t with a re-encoded signature), u, boxes b = [t], bb = [t, t], bu = [t, u] and w = [t] (another
-   box - other signed wrapper - around the same t).  A block carries a SEQUENCE of them (duplicates possible) in one
+   box - other signed wrapper - around the same t); r, a reimbursement transaction (its sender signs without gasPrice /
+   gasLimit, its gas payer fills them in and signs), and r2 = the same sender-signed r priced and signed again by its gas payer;
+   t3 = t with a signature appended by somebody else.  A block carries a SEQUENCE of them (duplicates possible) in one
    carrier encoding e \in Encs ("c" = canonical: what the node's own marshaller writes).
    Offer(p, tm, L, e): a block on p with timestamp tm carrying L, its carriers written in encoding e, is built and offered.
    Design verdict Valid: every transaction (and sub-transaction) inside its window at tm, no signed payload twice inside
@@ -17,7 +19,8 @@
    the replay guard files a transaction is a function of its signed content only.
    Flags = what an implementation might NOT do (negative controls: AtMostOnce is violated with them):
      DupCheck = FALSE         nothing looks for duplicates inside one block / one box
-     PayloadIdentity = FALSE  identity of a transaction is the hash over its signature bytes (the code as written)
+     PayloadIdentity = FALSE  identity of a transaction is the hash over its signature bytes and over what its gas payer filled
+                              in (the code as written)
      CarrierIdentity = TRUE   a sub-transaction read from a box payload is filed under what the payload says it is *)
 EXTENDS Integers, Sequences, FiniteSets, TLC
 CONSTANTS Times, ExpChoices, OfferMenu, MaxBlocks, MaxBoots, DupCheck, PayloadIdentity,
@@ -26,9 +29,9 @@ CONSTANTS Times, ExpChoices, OfferMenu, MaxBlocks, MaxBoots, DupCheck, PayloadId
 Life == 1800
 Canon == "c"
 RlpEncs == {"g"}            \* manipulations that also exist for the RLP carrier of a transaction of its own (gasUsed)
-Tx == {"t", "t2", "u", "b", "bb", "bu", "w"}
+Tx == {"t", "t2", "t3", "u", "b", "bb", "bu", "w", "r", "r2"}
 SubsOf(x) == CASE x = "b" -> <<"t">> [] x = "bb" -> <<"t", "t">> [] x = "bu" -> <<"t", "u">> [] x = "w" -> <<"t">> [] OTHER -> <<>>
-Payload(x) == IF x = "t2" THEN "t" ELSE x
+Payload(x) == CASE x \in {"t2", "t3"} -> "t" [] x = "r2" -> "r" [] OTHER -> x        \* what the sender signed
 Ident(x) == IF PayloadIdentity THEN Payload(x) ELSE x
 Range(s) == {s[i] : i \in 1..Len(s)}
 Closure(x) == {x} \cup Range(SubsOf(x))
@@ -49,7 +52,9 @@ Filed(L, e) == LET X == ExecAll(L)  F == FlagAll(L) IN
                [k \in 1..Len(X) |-> IF CarrierIdentity /\ e # Canon /\ F[k] THEN <<Ident(X[k]), e, k>> ELSE <<Ident(X[k])>>]
 
 VARIABLES exp, blocks, stable, dead,
-          boots     \* number of restarts so far: a restart rebuilds the node's guard, so what follows it is a different history
+          boots     \* the restarts so far, each as <<number of blocks, stable block>> at that moment: a restart rebuilds the node's guard from
+                    \* the stable chain as it is THEN, so histories that differ in when the node restarted are different states (an edge
+                    \* tour then offers every block after every restart position, not after whichever one it happened to take)
 vars == <<exp, blocks, stable, dead, boots>>
 N == Len(blocks)
 RECURSIVE Anc(_)
@@ -63,14 +68,14 @@ Valid(p, tm, L, e) == /\ \A i \in 1..Len(L) : Legal(L[i], tm)
                       /\ Range(Filed(L, e)) \cap Done(p) = {}
 Init == /\ exp \in ExpChoices
         /\ blocks = <<[parent |-> 0, time |-> 0, txl |-> <<>>, enc |-> Canon, acc |-> TRUE]>>       \* genesis
-        /\ stable = 1 /\ dead = {} /\ boots = 0
+        /\ stable = 1 /\ dead = {} /\ boots = <<>>
 Offer(p, tm, L, e) ==
   /\ N < MaxBlocks /\ p \in Usable /\ tm >= blocks[p].time /\ Carried(L, e)
   /\ ~ \E X \in 1..N : blocks[X].parent = p /\ blocks[X].time = tm /\ blocks[X].txl = L /\ blocks[X].enc = e   \* the very same block again is ignored
   /\ blocks' = Append(blocks, [parent |-> p, time |-> tm, txl |-> L, enc |-> e, acc |-> Valid(p, tm, L, e)])
   /\ UNCHANGED <<exp, stable, dead, boots>>
 Stabilise(s) == /\ s \in Usable /\ s # stable /\ stable' = s /\ UNCHANGED <<exp, blocks, dead, boots>>
-Reboot == /\ boots < MaxBoots /\ boots' = boots + 1
+Reboot == /\ Len(boots) < MaxBoots /\ boots' = Append(boots, <<N, stable>>)
           /\ dead' = dead \cup ((1..N) \ Anc(stable))
           /\ UNCHANGED <<exp, blocks, stable>>
 Next == \/ \E p \in 1..MaxBlocks, tm \in Times, L \in OfferMenu, e \in Encs : Offer(p, tm, L, e)
@@ -81,7 +86,7 @@ Spec == Init /\ [][Next]_vars
 Count(s, x) == Cardinality({i \in 1..Len(s) : s[i] = x})
 RECURSIVE Execs(_, _)
 Execs(b, x) == IF b = 0 THEN 0 ELSE Count(Map(ExecAll(blocks[b].txl), Payload), x) + Execs(blocks[b].parent, x)
-AtMostOnce == \A X \in 1..N : blocks[X].acc => \A x \in {"t", "u", "b", "bb", "bu", "w"} : Execs(X, x) <= 1
+AtMostOnce == \A X \in 1..N : blocks[X].acc => \A x \in {"t", "u", "b", "bb", "bu", "w", "r"} : Execs(X, x) <= 1
 InWindow == \A X \in 2..N : blocks[X].acc => \A i \in 1..Len(blocks[X].txl) : Legal(blocks[X].txl[i], blocks[X].time)
 \* what was executed only on another fork may be executed again, and no carrier makes a valid block unacceptable: such an offer is accepted
 ForkFree == \A X \in 2..N : LET L == blocks[X].txl IN
